@@ -2,7 +2,8 @@ from .common import COMMON_TB
 
 CFG = dict(
     coq="Properties/C13.v",
-    areas=["purity"],
+    areas=["purity", "mt"],
+    oracle_filter={"mt": r"MT output|partial MT output"},
     level="proof",
     # "checked" = release speed with debug assertions and overflow checks: ties the model's Panic outcomes
     # (debug_assert!, checked arithmetic) to the code
